@@ -4,4 +4,8 @@ import ob_pool
 
 def obligations(prog, src, tier, seed):
     obs = ob_pool.obligations(prog, src, tier, seed, "C04", select=['pool_pop', 'pool_push', 'pool_checkout', 'pool_register'])
+    import os
+    import ob_sched
+    depth = int(os.environ.get("SCHED_DEPTH", "4" if tier == "quick" else "6"))
+    obs += ob_sched.obligations(prog, src, tier, seed, "C04", n_req=2, depth=depth, classes=('C04',))
     return obs
